@@ -432,3 +432,29 @@ def c15(tier, seed):
                     "trusted_base": ["TLC", "observer membership margins (nonsymmetric, PSD)"]}
     res.assumptions = ["PSD cones of dimension > 2 and tightness for exp/power cones beyond one backtracking factor are covered only through the composite-step events"]
     return res
+
+
+def c18(tier, seed):
+    res = Result("C18", tier, seed, "model_checking")
+    wd = workdir("C18")
+    tr, cs, mt = [os.path.join(wd, "decomp" + x) for x in (".ndjson", ".cases.ndjson", ".meta.json")]
+    run_vh(["decomp", "--seed", seed, "--count", 400 if tier == "quick" else 12000, "--out", tr, "--cases", cs, "--meta", mt], timeout=4 * 3600)
+    meta = json.load(open(mt))
+    v = events_with_cases(res, "C18", "Decomp.tla", "Decomp.cfg", tr, cs, "decomp", "decomp-replay", nshards=12)
+    lines = read_ndjson(tr)
+    kinds = {}
+    for e in lines:
+        k = e["ev"] + (":compact" if e.get("compact") else ":standard" if "compact" in e else "")
+        kinds[k] = kinds.get(k, 0) + 1
+    if meta["decomposed_events"] < 50:
+        raise ToolError("vacuity guard: too few decomposed problems in the corpus")
+    res.coverage = {"states": max(1, v["states"]), "transitions": max(1, v["transitions"]), "traces_validated_against_impl": v["events"],
+                    "evaluations": v["events"], "distinct_nontrivial": meta["decomposed_events"],
+                    "rule": "sparse SDPs (1-2 PSD cones of dimension 4..7 with banded/arrow/block/random/chordal aggregate patterns, entries present only through b, "
+                            "NN cones before / after incl. infinite bounds dropped by presolve, SOC after) x compact/standard x 3 merge strategies x complete_dual: "
+                            "Augmented events (integer data) are checked by TLC against the declarative layout of Decomp.tla; Reversed and DecompPair events come from "
+                            "real solves of planted strictly feasible SDPs (row map, slack sums, dual block agreement / average, PSD completion, decomposition on vs off); "
+                            "non-trivial = the problem was actually decomposed",
+                    "by_event": kinds, "meta": meta, "samples": [{k: e[k] for k in e if k not in ("A2", "Aorig", "rowmap", "s_pairs", "z_pairs")} for e in sample(lines, 2)],
+                    "trusted_base": ["TLC", "observer reading of the clique trees (sorted clique vertices, separators)", "observer eigenvalues"]}
+    return res
